@@ -117,10 +117,16 @@ pub fn gen_script(rng: &mut Rng, level: usize) -> Vec<HAction> {
 /// how the application hands over its handler (RecProc::pform): mostly a struct; a function through the blanket impl for any
 /// set; `RawCommand::processor(closure)` where the script never returns anything but sink errors and nothing is parsed
 pub fn gen_pform(rng: &mut Rng, set: SetKind, script: &[HAction]) -> u8 {
-    match rng.below(10) {
+    let form = match rng.below(10) {
         0 | 1 => 2,
         2 | 3 if set == SetKind::Raw && script.iter().all(|a| !a.reject) => 1,
         _ => 0,
+    };
+    // 8 %: another command set with every line (bit 4; the closure form cannot express parse errors, so not with it)
+    if form != 1 && rng.chance(8) {
+        form | 0x10
+    } else {
+        form
     }
 }
 
